@@ -118,6 +118,9 @@ def lifetime_descs(draw, U, classes=None, well_conditioned=False):
             el = st.floats(0.15 * mean_dt, 2.5 * mean_dt)
         else:
             el = st.floats(0.6, 4.0)
+        if cls == "FixedLifetime" and name == "mean" and draw(st.booleans()):
+            # lifetimes that coincide exactly with possible ages (integers and half-integers of the grid spacing)
+            el = st.sampled_from([0.0, 0.5, 1.0, 1.5, 2.0, 2.5, 3.0, 4.0, 5.0, 7.5, 10.0])
         kind = draw(st.sampled_from(["scalar", "scalar", "array", "array", "cohort", "drift"]))
         if kind == "scalar":
             prms[name] = {"kind": "scalar", "v": draw(el)}
